@@ -558,7 +558,7 @@ class McPart(Part):
     Scenarios are distributed over worker processes (one scheduler per process)."""
 
     def __init__(self, name, prop, pkg, harness_dirs, rewrite_cfg, thorough_only=False,
-                 deadline_quick=240, deadline_thorough=1500, extra_rewrites=None):
+                 deadline_quick=240, deadline_thorough=600, extra_rewrites=None):
         super().__init__(name, thorough_only)
         self.extra_rewrites = extra_rewrites or []
         self.prop = prop
